@@ -24,6 +24,7 @@ MAX_TOTAL_BLOCKS = 9000
 WORKSPACE = ("s3s", "s3s_fs", "s3s_policy", "s3s_aws")
 
 _CTOR_SITE = {}
+_MOVED = [None]
 _ANCHORS = [None]
 _RECORDED = [None]
 
@@ -47,7 +48,18 @@ def is_role(db, callee):
     rec = recorded_anchor_paths()
     if rec is None:
         return short(callee.name) in anchor_names()
-    return callee.name in rec or callee.name in db.reachable_fns
+    if callee.name in rec or callee.name in db.reachable_fns:
+        return True
+    # a recorded function that was moved inside its module (a free function turned into an associated one): same name, same module
+    if _MOVED[0] is None:
+        _MOVED[0] = {}
+        for r in rec:
+            _MOVED[0].setdefault(short(r), set()).add(r.rsplit("::", 1)[0] + "::")
+    mods = _MOVED[0].get(short(callee.name))
+    if mods and any(callee.name.startswith(m) for m in mods):
+        # only when the recorded path itself no longer exists
+        return not any(r in db.bodies for r in rec if short(r) == short(callee.name) and callee.name.startswith(r.rsplit("::", 1)[0] + "::"))
+    return False
 
 
 def anchor_names():
